@@ -15,6 +15,7 @@ The ledger mirrors the documented contract of the real backends (httpcore/_backe
 """
 from __future__ import annotations
 
+import threading
 import sys
 import typing
 
@@ -29,6 +30,86 @@ from httpcore._backends.base import (
 
 class WouldHang(BaseException):
     """A blocking call that could never return (sync single-thread mode)."""
+
+
+class _NBEvent:
+    """threading.Event for a SINGLE-threaded synchronous run: nobody else can ever set it, so a wait
+    without a time limit would block for ever (WouldHang), and a wait with one simply times out."""
+
+    def __init__(self):
+        self._e = threading.Event()
+
+    def set(self):
+        self._e.set()
+
+    def is_set(self):
+        return self._e.is_set()
+
+    def clear(self):
+        self._e.clear()
+
+    def wait(self, timeout=None):
+        if self._e.is_set():
+            return True
+        if timeout is None:
+            raise WouldHang("wait on an event nobody can set")
+        return False
+
+
+class _NBLock:
+    def __init__(self):
+        self._l = threading.Lock()
+
+    def acquire(self, blocking=True, timeout=-1):
+        if self._l.acquire(False):
+            return True
+        if blocking and timeout in (-1, None):
+            raise WouldHang("lock held by the only thread there is")
+        return False
+
+    def release(self):
+        self._l.release()
+
+    def locked(self):
+        return self._l.locked()
+
+    __enter__ = lambda self: self.acquire()
+
+    def __exit__(self, *a):
+        self.release()
+
+
+class _NBSemaphore:
+    def __init__(self, value=1):
+        self._s = threading.Semaphore(value)
+
+    def acquire(self, blocking=True, timeout=None):
+        if self._s.acquire(False):
+            return True
+        if blocking and timeout is None:
+            raise WouldHang("semaphore without a permit and nobody to release one")
+        return False
+
+    def release(self, n=1):
+        self._s.release(n)
+
+
+class sync_no_block:
+    """Context manager for single-caller runs of the SYNC tree: httpcore's thread primitives are replaced
+    (at run time, in the loaded module only) by versions that raise WouldHang instead of blocking the only
+    thread for ever - a hang becomes an observable outcome instead of a stuck check."""
+
+    def __enter__(self):
+        import types
+
+        import httpcore._synchronization as m
+
+        self._m, self._old = m, m.threading
+        m.threading = types.SimpleNamespace(Lock=_NBLock, Event=_NBEvent, Semaphore=_NBSemaphore, RLock=threading.RLock, get_ident=threading.get_ident, current_thread=threading.current_thread)
+        return self
+
+    def __exit__(self, *a):
+        self._m.threading = self._old
 
 
 class FakeSSLObject:
@@ -95,6 +176,11 @@ class StreamRec:
 
     def readable(self):
         return (not self.open) or bool(self.inbuf) or self.eof
+
+
+class HarnessAbort(BaseException):
+    """An exception that is not an Exception (like KeyboardInterrupt, which the event loops treat
+    specially): what a clean-up handler written as `except Exception` does not see."""
 
 
 class Op:
@@ -165,6 +251,8 @@ class SimNet:
         return True
 
     def make_exc(self, name, msg="injected"):
+        if name == "HarnessAbort":
+            return HarnessAbort(msg)
         cls = getattr(httpcore, name, None)
         if cls is None:
             import builtins
@@ -506,9 +594,19 @@ class SimStream(NetworkStream):
         return f"<SimStream {self._rec.sid}>"
 
 
+def ensure_sync_cannot_block():
+    """Single-caller synchronous runs: a wait that nothing can end raises WouldHang (installed once per
+    process, only over the REAL threading module; the controlled thread scheduler installs its own)."""
+    import httpcore._synchronization as m
+
+    if m.threading is threading:
+        sync_no_block().__enter__()
+
+
 class SimBackend(NetworkBackend):
     def __init__(self, net: SimNet):
         self.net = net
+        ensure_sync_cannot_block()
 
     def _do(self, op):
         if self.net.yield_hook is not None:
